@@ -147,7 +147,7 @@ mtext('C12',
       'frozen-first, guarded overwrites and zero counting, field coverage of reset/len/is_empty/to_string, and panic-freedom of every '
       'public method. Each is a necessary condition of the property; the arithmetic meaning of place/shift is not decided.',
       'Not decided: value semantics of put/shift ("multiplies the rightmost group by 10^p", "keeps every non-zero digit"). Assumes ASCII-digit '
-      'arguments and positions < 2^31. Known finding: is_range_free(start >= end) violates a documented precondition (debug assertion).',
+      'arguments and positions < 2^31.',
       'static analysis: MIR mutation/dominance analysis (write-before-Err reachability, guard dominance, who-writes) + panic-site prover',
       'DESIGN.md §2 B1 B3 B4 B5 B6, §4 C12')
 
